@@ -259,6 +259,13 @@ def _parse_output(job, text, rc, err):
     job.failed = [(r.get('property'), r.get('description'), r.get('trace', []),
                    r.get('sourceLocation', {})) for r in real_fails]
     job.unwind_failed = [(r.get('property'), r.get('description'), r.get('trace', [])) for r in unwind_fails]
+    nobody = [r for r in fails if 'no body for callee' in r.get('description', '')]
+    if nobody:
+        # a function the harness should have supplied: the harness is incomplete, no verdict
+        job.status = 'error'
+        job.reason = 'harness incomplete: ' + ', '.join(sorted(set(r.get('description', '') for r in nobody)))[:300]
+        job.failed = []
+        return
     undecided = [r for r in results if r.get('status') not in ('SUCCESS', 'FAILURE')]
     job.stats['undecided'] = len(undecided)
     if real_fails:
